@@ -8,7 +8,7 @@ from vf.core import Part, Violation, call
 from vf.props import common
 
 PROPERTY = "C14"
-RULE = ("Hypothesis generates StingyConfigurator specs over 3-7 boolean items (1-4 rules from defaulted/plain configurator "
+RULE = ("For configurators with <=10 boolean leaves the integer points of the system handed to the solver are compared with the configurations that satisfy the rules (both directions). Hypothesis generates StingyConfigurator specs over 3-7 boolean items (1-4 rules from defaulted/plain configurator "
         "Any/Xor with the default possibly missing or not among the children, plog Any/Xor/All/AtMost/AtLeast/XNor, Imply with "
         "plain or defaulted consequence, one nesting level) x 1-2 priority dictionaries (0-4 entries, values in +-1..+-3 with "
         "ties and several levels, keys items / auxiliary ids / unknown ids). The objective vectors are captured from the solver "
